@@ -1,0 +1,16 @@
+//go:build verif
+
+// Package verifhook provides instrumentation points for external verification
+// harnesses (enabled by the "verif" build tag).
+package verifhook
+
+// Handler, when set, is invoked at every instrumentation point. It must be
+// installed before any goroutine that may reach a point is started.
+var Handler func(site string)
+
+// Point marks an interior step of the library and yields to the handler.
+func Point(site string) {
+	if h := Handler; h != nil {
+		h(site)
+	}
+}
